@@ -322,9 +322,10 @@ fn rand_hols(r: &mut Rng, lo: i64, hi: i64, centre: i64) -> Vec<NaiveDateTime> {
     v.into_iter().filter(|d| *d >= lo && *d <= hi).map(dn).collect()
 }
 
-const NAMED: [&str; 16] = [
+// (the last two combine calendars whose WEEK MASKS differ: 'all' works seven days a week)
+const NAMED: [&str; 18] = [
     "tgt", "nyc", "ldn", "fed", "stk", "osl", "zur", "tro", "tyo", "syd", "wlg", "mum", "bus", "all", "tgt,ldn|fed",
-    "nyc,tro|tgt,ldn",
+    "nyc,tro|tgt,ldn", "all,ldn", "all,tgt|all,fed",
 ];
 
 fn rand_rollday(r: &mut Rng) -> RollDay {
